@@ -20,6 +20,8 @@ func main() {
 		runCmd(os.Args[2:])
 	case "check":
 		os.Exit(checkCmd(os.Args[2:]))
+	case "replay":
+		os.Exit(replayCmd(os.Args[2:]))
 	default:
 		fmt.Println("unknown command")
 		os.Exit(2)
@@ -40,9 +42,11 @@ func runCmd(args []string) {
 	logdir := fs.String("log", "", "smt log dir")
 	arch := fs.String("arch", "", "GOARCH for loading")
 	thorough := fs.Bool("thorough", false, "thorough tier")
+	preempt := fs.Int("preempt", 2, "pre-emption bound")
 	short := fs.Int("short", 2000, "first-stage timeout ms")
 	fallback := fs.String("fallback", "z3-new,cvc5-int", "fallback solvers (fresh, stateless), comma separated")
 	guide := fs.Bool("guide", true, "model-guided branching")
+	paramStr := fs.String("p", "", "harness parameters k=v,k=v")
 	fs.Parse(args)
 	t0 := time.Now()
 	p, err := sym.Load(*repo, *hroot, *arch)
@@ -57,8 +61,15 @@ func runCmd(args []string) {
 			fmt.Println("no such harness:", name)
 			os.Exit(2)
 		}
-		cfg := sym.Config{Solver: *solver, TimeoutMs: *tmo, Workers: *workers, MaxSteps: 20000000, LoopBound: *loop, Preempt: 2,
+		cfg := sym.Config{Solver: *solver, TimeoutMs: *tmo, Workers: *workers, MaxSteps: 20000000, LoopBound: *loop, Preempt: *preempt,
 			TraceExec: *trace, MaxPaths: *maxp, LogDir: *logdir, Thorough: *thorough, Known: map[string]bool{}, Params: map[string]int{}, ShortMs: *short, Fallback: *fallback, ModelGuide: *guide}
+		for _, kv := range strings.Split(*paramStr, ",") {
+			if i := strings.IndexByte(kv, '='); i > 0 {
+				var v int
+				fmt.Sscanf(kv[i+1:], "%d", &v)
+				cfg.Params[kv[:i]] = v
+			}
+		}
 		ex := sym.NewExplorer(p, fn, cfg)
 		t1 := time.Now()
 		ex.Run()
